@@ -64,7 +64,9 @@ func keywordJSONCases() []kwCase {
 		{"value-depth1", func(kw string) any { return map[string]any{"k": kw} }},
 		{"value-depth3", func(kw string) any { return map[string]any{"a": map[string]any{"b": []any{kw, "x"}}} }},
 		{"text-in-value", func(kw string) any { return map[string]any{"note": `"` + kw + `":`, "deep": []any{`{"` + kw + `":1}`}} }},
-		{"text-in-member-name", func(kw string) any { return map[string]any{`"` + kw + `":`: 1, "n": map[string]any{`{"` + kw + `":`: "x"}} }},
+		{"text-in-member-name", func(kw string) any {
+			return map[string]any{`"` + kw + `":`: 1, "n": map[string]any{`{"` + kw + `":`: "x"}}
+		}},
 	}
 	for _, kw := range protoKeywords {
 		for _, sh := range shapes {
@@ -126,6 +128,7 @@ func (e *env) keywordPath() {
 		}
 		ok, view, err := e.toolCase(v, "keyword")
 		e.control = nil
+		e.routed("tool", v, err)
 		if !ok {
 			e.violate("content:keyword:tool-"+where+"-lost", "a tool result whose "+where+" content uses JSON-RPC vocabulary ("+kc.name+") is not what the caller receives", v, obs(view, err), normResultSpec(v))
 		}
@@ -144,6 +147,7 @@ func (e *env) keywordPath() {
 		}
 		ok, view, err := e.promptCase(v, "keyword")
 		e.control = nil
+		e.routed("prompt", v, err)
 		if !ok {
 			e.violate("content:keyword:prompt-meta-lost", "a prompt result whose _meta uses JSON-RPC vocabulary ("+kc.name+") is not what the caller receives", v, obs(view, err), normPromptSpec(v))
 		}
@@ -176,6 +180,19 @@ func (e *env) keywordPath() {
 			}
 		}
 	}
+}
+
+// routed: T-diff against the model's classifier of the response envelope (Mcp.Content.classifyLegacySSE /
+// classifyMessageType): the response that carries the value was taken for a response iff the pending call got an answer.
+func (e *env) routed(path string, v spec, err error) {
+	if err == errSkipped {
+		return
+	}
+	kind := "response"
+	if e.lastNever {
+		kind = "not-delivered-to-the-pending-call"
+	}
+	e.c.Emit(op("e2e.route", "mode", e.mode, "path", path, "v", v), map[string]any{"kind": kind}, kind == "response", "e2e.route."+e.mode)
 }
 
 func controlNote(kw string, ok bool, err error, took time.Duration) string {
